@@ -83,7 +83,13 @@ fn draw_cfg(ctx: &mut Ctx) -> Cfg {
     let ply_limit = match ctx.mode {
         Prop::C11 | Prop::C12 | Prop::C13 => t.range(1, 30),
         Prop::C02 => t.range(1, 60),
-        _ => *t.pick(&[8u32, 20, 40, 80, 200]),
+        _ => {
+            if ctx.tier == Tier::Thorough {
+                *t.pick(&[8u32, 20, 40, 80, 200, 400])
+            } else {
+                *t.pick(&[8u32, 20, 40, 80, 200])
+            }
+        }
     };
     let (restart_in, corrupt_in, byz, hosted_in) = match ctx.mode {
         Prop::C01 => (*t.pick(&[0u32, 6, 12]), *t.pick(&[0u32, 0, 4]), 6, 0),
@@ -1305,7 +1311,7 @@ fn own_monitors_at_disputed_position(ctx: &mut Ctx, st: &mut LoopState) -> Step 
             Ok(())
         }
         Prop::C03 => mon_c03_status(ctx, &st.s, &l1),
-        Prop::C11 | Prop::C12 => clock::at_position(ctx, &st.s, &l1, &st.three_fold),
+        Prop::C11 | Prop::C12 | Prop::C13 => clock::at_position(ctx, &st.s, &l1, &st.three_fold),
         _ => Ok(()),
     }
 }
